@@ -39,7 +39,8 @@ CHECKS = {
             "all 4096 numbers x short lengths x fills, all truncations / spliced bodies of corpus "
             "payloads and every hostile stream of the C01 alphabet under all modes, also over a real "
             "socket subclass (plain and chunked, peer closing at every byte, receive faults, hostile chunk-size "
-            "lines, truncated compressed bodies), a bytearray-returning and a non-seekable buffered stream; only library "
+            "lines, truncated compressed bodies), a bytearray-returning and a non-seekable buffered stream, and 560 hostile "
+            "text lines each iterated in a forked child killed from outside on time-out; only library "
             "exceptions may escape, ignore/log modes never raise, read-call count bounded",
             "termination is decided by a deterministic bound on stream calls per item"),
     "C05": ("fault_enumeration", "E1",
@@ -52,7 +53,8 @@ CHECKS = {
     "C06": ("exploration", "refmodel",
             "exhaustive enumeration of every whole-byte truncation of every reference payload",
             "every identity x shape x {zeros, ones, fingerprint, NUL text} x every cut length from full-1 down "
-            "to the identity header; the real constructor must fail",
+            "to the identity header, handed over as bytes / bytearray / memoryview slice of a larger buffer; the real "
+            "constructor must fail",
             "complete payloads come from the reference encoder"),
     "C07": ("exploration", "refmodel",
             "exhaustive enumeration over payload length 2..1023 and the corpus; independent framing",
@@ -77,7 +79,8 @@ CHECKS = {
             "exhaustive enumeration of mask shapes (all popcount<=2 masks, all cell masks up to 6 "
             "cells) x 49 MSM types x label option against pinned RINEX/PRN tables",
             "NSat/NSig/NCell and every PRN/CELLPRN/CELLSIG label compared with a reference mask "
-            "decoder over pinned RTCM 10403.3 tables for all 49 MSM identities",
+            "decoder over pinned RTCM 10403.3 tables for all 49 MSM identities; a subset re-judged in child "
+            "interpreters under -O, -OO, -W error, -X dev",
             "masks of popcount >= 3 are represented, not enumerated"),
     "C10": ("exploration", "refmodel+pinned",
             "exhaustive enumeration over the definition table x count product; black-box bit-ownership "
@@ -92,7 +95,9 @@ CHECKS = {
             "placements to a fixed point) + E1 over the reader on a socket",
             "state graph of the real SocketWrapper closed under all recv() answers (any split, close, "
             "timeout, OS error) and all client reads; invariants checked in every state; long-haul "
-            "histories (70 000+ bytes through one wrapper); reader over a socket subclass compared with "
+            "histories (70 000+ bytes through one wrapper, receive buffers up to 1 MiB); genuine OS sockets "
+            "(socketpair, non-blocking / time-out) with a faulting receive after every segment for all compositions "
+            "of a 10-byte stream; reader over socket subclasses (incl. one with its own read()) compared with "
             "BytesIO for all segmentations of short streams",
             "source length and fault count bounded; canonical state = all instance attributes + cursor"),
     "C12": ("model_checking", "E2",
@@ -100,7 +105,8 @@ CHECKS = {
             "encoded stream",
             "all chunk-size lists (<= 3 chunks) x hex spellings x terminator, every composition of the "
             "encoded stream into recv() results for short bodies and the BFS fixed point for longer / "
-            "compressed bodies; delivered bytes == reference RFC 9112 decoder",
+            "compressed bodies (single and OR'd compression layers), size fields of up to 17 digits, 300 / 700 chunks "
+            "in one receive; delivered bytes == reference RFC 9112 decoder",
             "well-formed chunked bodies only"),
     "C13": ("model_checking", "E2+E3",
             "explicit-state search over parse histories with full table snapshots + controlled "
@@ -117,7 +123,8 @@ CHECKS = {
             "every corpus message x every instance attribute name (public, private), properties and "
             "fresh names x value kinds, on messages obtained directly, from parser / file / socket readers "
             "and through copy / deepcopy / pickle; values incl. retyped copies and in-place augmented "
-            "assignment; setattr must raise RTCMMessageError, snapshot unchanged",
+            "assignment, values that cannot be inspected, hosts with warnings turned into errors and child "
+            "interpreters under -O / -OO / -W error; setattr must raise RTCMMessageError, snapshot unchanged",
             "assignment = builtin setattr"),
     "C15": ("exploration", "E1",
             "bounded exhaustive enumeration of the 12-bit x 8-bit header space on the real code",
